@@ -137,6 +137,8 @@ def judge(case, out, m):
             x = mm['reqs'][i]
             if (x.get('status'), x.get('handler'), x.get('params'), x.get('body')) != (o.get('status'), o.get('handler'), o.get('params'), o.get('body')):
                 v.append(('disagree', f'req {req["m"]} {unhx(req["p"])!r}: impl {o} model {x}'))
+            if x.get('internal') is False:
+                v.append(('disagree', f'req {unhx(req["p"])!r}: the two formulations of the search in the model (searchP, search) differ'))
             if x.get('spec_exact'):
                 sp = x.get('spec')
                 if (sp or {}).get('handler') != x.get('handler') or ((sp or {}).get('params') if sp else None) != x.get('params'):
